@@ -541,20 +541,32 @@ def run(prog: Program) -> Results:
                   "each case reads it exactly once; the channel does not rewrite bytes", floor=4)
     bp = prog.func("build_parser")
     wfa = prog.func("with_file_argument")
-    sub_vars = {}
-    for st in ast.walk(bp.node):
-        if isinstance(st, ast.Assign) and isinstance(st.value, ast.Call) and callee(st.value) == "add_parser" \
-                and st.value.args and isinstance(st.value.args[0], ast.Constant):
-            for t in st.targets:
-                if isinstance(t, ast.Name):
-                    sub_vars[st.value.args[0].value] = t.id
-    wired = set()
-    for c in ast.walk(bp.node):
-        if isinstance(c, ast.Call) and isinstance(c.func, ast.Name) and c.func.id == "with_file_argument" and c.args \
-                and isinstance(c.args[0], ast.Name):
-            wired.add(c.args[0].id)
+    # a table of sub-commands iterated by a loop reads like the statements it stands for
+    from sa.charmachine import module_constants
+    from sa.util import unroll_literal_loops
+    bp_node = unroll_literal_loops(bp.node, module_constants(prog, bp.module))
+    # which sub-command parsers are handed to with_file_argument: by order of statements, a parser variable may be reused
+    wired_cmds = set()
+    current: dict = {}
+    for st in bp_node.body:
+        for n_ in ast.walk(st):
+            if isinstance(n_, ast.Assign) and isinstance(n_.value, ast.Call) and callee(n_.value) == "add_parser" \
+                    and n_.value.args and isinstance(n_.value.args[0], ast.Constant):
+                for t in n_.targets:
+                    if isinstance(t, ast.Name):
+                        current[t.id] = n_.value.args[0].value
+            if isinstance(n_, ast.Call) and isinstance(n_.func, ast.Name) and n_.func.id == "with_file_argument" and n_.args:
+                a0 = n_.args[0]
+                if isinstance(a0, ast.Name) and a0.id in current:
+                    wired_cmds.add(current[a0.id])
+                elif isinstance(a0, ast.Call) and callee(a0) == "add_parser" and a0.args and isinstance(a0.args[0], ast.Constant):
+                    wired_cmds.add(a0.args[0].value)
+    sub_vars = {v: k for k, v in current.items()}
+    for cmd_ in wired_cmds:
+        sub_vars.setdefault(cmd_, "<parser>")
+    wired = {sub_vars[c_] for c_ in wired_cmds}
     # the positional arguments reach the library as typed: no type=/choices=/nargs=/action= conversion
-    for c in ast.walk(bp.node):
+    for c in ast.walk(bp_node):
         if isinstance(c, ast.Call) and callee(c) == "add_argument" and c.args and isinstance(c.args[0], ast.Constant) \
                 and isinstance(c.args[0].value, str) and not c.args[0].value.startswith("-"):
             r4.instances += 1
@@ -567,7 +579,7 @@ def run(prog: Program) -> Results:
                         f"and a direct library call with the same text can differ (e.g. a re-formatted NPath whose `${{` is escaped twice)")
     for cmd in ("set", "rm", "test"):
         r4.instances += 1
-        good = cmd in sub_vars and sub_vars[cmd] in wired
+        good = cmd in wired_cmds
         r4.ob(good, {"subcommand": cmd, "parser_var": sub_vars.get(cmd), "wired": good})
         if not good:
             res.add("R-C16-4", ("build_parser", cmd, "file argument not wired"), bp.loc(),
